@@ -82,9 +82,15 @@ def expected_tracts(D):
     return out
 
 
-def render(r, D, layout, spell=None, canonical=False):
-    """one of the documented renderings of D in the given layout"""
+LAST_CONNS = []   # connectors used by the last render() for the first block of each Twp/Rge group
+
+
+def render(r, D, layout, spell=None, canonical=False, conns=None):
+    """one of the documented renderings of D in the given layout; conns = connectors allowed between a
+    description block and the section reference that follows it (default: ' of ')"""
     parts = []
+    del LAST_CONNS[:]
+    conns = conns or [' of ']
     for (t, ns, rg, ew), secs in D:
         sp = twprge_spellings(t, ns, rg, ew)
         tr = sp[0] if canonical else (sp[spell % len(sp)] if spell is not None else r.choice(sp))
@@ -93,10 +99,14 @@ def render(r, D, layout, spell=None, canonical=False):
             body = gsep.join(f'{render_secgroup(r, g)}: {b}' for g, b in secs)
             parts.append(tr + ('\n' if canonical else r.choice(['\n', ', ', ' '])) + body)
         elif layout == 'TR_desc_S':
-            body = gsep.join(f'{b} of {render_secgroup(r, g)}' for g, b in secs)
+            cs = [r.choice(conns) if len(conns) > 1 else conns[0] for _ in secs]
+            LAST_CONNS.append(cs[0])
+            body = gsep.join(f'{b}{c}{render_secgroup(r, g)}' for (g, b), c in zip(secs, cs))
             parts.append(tr + ('\n' if canonical else r.choice(['\n', ', ', ' '])) + body)
         elif layout == 'desc_STR':
-            body = gsep.join(f'{b} of {render_secgroup(r, g)}' for g, b in secs)
+            cs = [r.choice(conns) if len(conns) > 1 else conns[0] for _ in secs]
+            LAST_CONNS.append(cs[0])
+            body = gsep.join(f'{b}{c}{render_secgroup(r, g)}' for (g, b), c in zip(secs, cs))
             parts.append(body + ', ' + tr)
         else:
             body = gsep.join(f'{render_secgroup(r, g)}: {b}' for g, b in secs)
